@@ -103,6 +103,45 @@ def totality(L):
     return out
 
 
+def wrapper_totality(L):
+    """Ranking.from_string around the scanner: the scanner is stubbed (its own totality is checked separately) and returns no
+    bucket; whatever the wrapper does with the text before / after that call must not raise anything but ValueError"""
+    from corankco.ranking import Ranking
+    from corankco import utils
+    import corankco.ranking as RK
+    out = []
+    chars = [z3.Int(f"c{i}") for i in range(L)]
+    length = z3.Int("len")
+    pre = [z3.And(c >= 0, c < 128) for c in chars] + [length >= 0, length <= L]
+    I = merge.new_interp(unwind=L + 2)
+    I.ctx.bags = False
+    I.models[RK.parse_ranking_with_ties_of_str] = lambda I_, s_: []
+    I.models[utils.parse_ranking_with_ties_of_str] = lambda I_, s_: []
+    fn = Ranking.__dict__["from_string"]
+    I.call_function(fn, [Ranking, MStr(chars, 0, length)])
+    STATS.encoded.update(I.ctx.encoded)
+    s = harness.solver(300000)
+    s.add(*pre)
+
+    def text_of(mdl):
+        n = harness.zval(mdl, length)
+        return "".join(chr(harness.zval(mdl, chars[i])) for i in range(n))
+    for g, name in I.ctx.raises:
+        if name != "ValueError":
+            r, mdl = harness.refute(s, "property", merge.to_z3(g) if g is not True else z3.BoolVal(True))
+            if r == "sat":
+                out.append({"signature": {"site": "Ranking.from_string", "class": "raises-" + name}, "kind": "wrapper", "what": f"from_string raises {name}", "text": text_of(mdl)})
+            elif r != "unsat":
+                raise harness.Inconclusive("raise reachability unknown")
+    for txt, r, mdl in merge.discharge_obligations(I, s):
+        if mdl is None:
+            raise harness.Inconclusive(txt)
+        out.append({"signature": {"site": "Ranking.from_string", "class": txt.split(" ")[0]}, "kind": "wrapper", "what": "from_string: " + txt, "text": text_of(mdl)})
+    STATS.states += 1
+    STATS.sample({"from_string wrapper": f"any string of length <= {L}; scanner stubbed", "obligations": len(I.ctx.obligations)})
+    return out
+
+
 SHAPES = [[1], [2], [1, 1], [2, 1], [1, 2], [1, 1, 1], [2, 2], [1, 2, 1]]
 DECOR = [("", ""), ("  ", " "), ("r1: ", ""), ("name :", "\n"), (" ", "  \t")]
 
@@ -219,12 +258,12 @@ def concrete_roundtrip(_):
 
 
 def dispatch(a):
-    return {"t": totality, "r": roundtrip, "c": concrete_roundtrip}[a[0]](a[1])
+    return {"t": totality, "r": roundtrip, "c": concrete_roundtrip, "w": wrapper_totality}[a[0]](a[1])
 
 
 def run(run):
     Ls = [3, 5, 7, 9] if not run.thorough else [4, 6, 8, 10, 12]
-    jobs = [("t", L) for L in Ls] + [("c", 0)]
+    jobs = [("t", L) for L in Ls] + [("c", 0), ("w", 4), ("w", 8)]
     rnd = random.Random(run.seed)
     for shape in SHAPES:
         for brace in (True, False):
@@ -257,6 +296,14 @@ def replay(p):
         except Exception as e:  # noqa
             return True, f"from_string({p['text']!r}) raised {type(e).__name__}: {e}"
     txt = p["text"]
+    if p["kind"] == "wrapper":
+        try:
+            Ranking.from_string(txt)
+            return False, f"from_string({txt!r}) returned"
+        except ValueError as e:
+            return False, f"ValueError: {e}"
+        except Exception as e:  # noqa
+            return True, f"from_string({txt!r}) raised {type(e).__name__}: {e}"
     import signal
 
     def on_alarm(*a):
